@@ -27,6 +27,15 @@ GenNext ==
     \/ \E r \in Res, f \in GenForms, v \in GenVals :
           ~EnvRun /\ OriginChange(r, f, v) /\ Log(Rec("ochange", 0, r, "", "", 0, FALSE, 0, f, v))
     \/ \E c \in Clients : Disconnect(c) /\ Log(Rec("disconnect", c, 0, "", "", 0, FALSE, 0, "", ""))
+    \* bias towards the rare window "the entry vanishes while its revalidation is in flight, then the origin says 304":
+    \* the same actions again, several times (the simulator picks among the generated successors)
+    \/ \E r \in Res, w \in 1..4 :
+          /\ \E x \in 1..MaxX : contacts[x].open /\ contacts[x].reval /\ contacts[x].r = r
+          /\ Evict(r) /\ Log(Rec("evict", 0, r, "", "", 0, FALSE, 0, "", ""))
+    \/ \E x \in 1..MaxX, w \in 1..6 :
+          /\ contacts[x].open /\ contacts[x].reval /\ ~store[contacts[x].r].present
+          /\ Reply(x, 304, FALSE, contacts[x].leader /\ contacts[x].kind = "get")
+          /\ Log(Rec("reply", contacts[x].oc, contacts[x].r, contacts[x].kind, "", 304, FALSE, 0, "", ""))
 
 GenSpec == GenInit /\ [][GenNext]_<<vars, hist>>
 PrintHist == (TLCGet("level") # Depth) \/ PrintT(<<"HIST", ToJson(hist)>>)
